@@ -26,10 +26,19 @@ def gen_case(g, prop):
                   headers=g.choice([None, ['=', '*'], ['~'], ['+', '-', '^']]), recursive=True, auto_exclude=g.random() < 0.5)
     if prop == 'C18':
         output = g.choice(['abs', 'rel', 'nested', 'prepopulated', None, None])
+        if g.random() < 0.3:      # a CMake file that is a symbolic link to a file outside the input tree
+            def link_one(ch):
+                fs = [c for c in ch if 'children' not in c and c['name'].lower().endswith('.cmake')]
+                if fs: g.choice(fs)['symlink'] = True
+                for c in ch:
+                    if 'children' in c and g.random() < 0.5: link_one(c['children'])
+            link_one(children)
         st.update(prefix=g.choice([None, 'PFX']), ext_titles=g.random() < 0.3, headers=g.choice([None, ['=', '*']]),
                   cfg={'incl': {f: g.random() < 0.7 for f in impl.FLAGS}} if g.random() < 0.4 else None)
     if prop == 'C17':
         pats = [g.choice(T.PATTERNS) for _ in range(g.choice([0, 0, 1, 2]))]
+        if g.random() < 0.25:     # order-sensitive pattern lists: a glob and a later negation that re-includes one of its matches
+            pats += g.choice([['*.cmake', '!a.cmake'], ['a*', '!aa.cmake', '!ab.cmake'], ['*.cmake', '!root.cmake', '!b.cmake'], ['mod.*', '!mod.cmake']])
     if prop in ('C13', 'C14', 'C15', 'C17') and g.random() < 0.6:
         # patterns built from the tree's own names: directory-qualified globs that empty a sub-directory, single files, directories
         dirs, files = [], []
@@ -51,6 +60,18 @@ def gen_case(g, prop):
         if output == 'nested': output = 'abs'
     if inp.get('spelled') == 'dot' and output == 'rel': output = 'abs'   # a relative output would resolve against the input directory
     case = dict(inputs=[inp], settings=st, patterns=pats, output=output)
+    if prop == 'C12' and inp['kind'] == 'dir' and g.random() < 0.3:
+        # an explicit @module name spelled exactly like the module name (or title) CMinx would derive anyway
+        cands = []
+        def collect(ch, rel):
+            for c in ch:
+                if 'children' in c: collect(c['children'], rel + [c['name']])
+                elif c['name'].lower().endswith('.cmake'): cands.append((c, rel + [c['name']]))
+        collect(children, [])
+        if cands:
+            c, rel = g.choice(cands)
+            title, mod = expected_names(case, inp, '/'.join(rel))
+            c['content'] = '#[[[ @module %s\n# module text\n#]]\nfunction(fm)\nendfunction()\n' % g.choice([mod, title])
     if prop == 'C12' and inp['kind'] == 'dir' and output != 'nested' and g.random() < 0.35:
         # another directory in the same run, through the same settings object: its pages must carry ITS default prefix
         other = dict(kind='dir', name='zz2', spelled='abs', children=[dict(name='zz_only.cmake', content='function(zz_f)\nendfunction()\n')])
